@@ -59,19 +59,21 @@ def foldKids (f : St → Nat → Option St) : St → List Nat → Option St
       | none => none
       | some st' => foldKids f st' ks
 
-/-- `convertLazy` on the inner schema `m`: in `seen` ⇒ `lazyRef` (/repo 16f278d): a reference by ID, by automatic name,
-    `#` when `m` is the root, and otherwise a NEW `$defs` entry (registered like the automatic names; its content is
-    filled in when `m`'s conversion returns); not in `seen` ⇒ `c.convert(m)`. -/
+/-- `(*converter).lazyRef` (/repo 16f278d): a reference to a schema that is in `seen` — by ID, by automatic name, `#` when
+    it is the root, and otherwise a NEW `$defs` entry (registered like the automatic names; its content is filled in when
+    the target's conversion returns). -/
+def lazyAnswer (g : Graph) (root : Nat) (st : St) (m : Nat) : St :=
+  match (g m).id with
+  | some i => st.emit i
+  | none => match st.refs (g m).base with
+      | some name => st.emit name
+      | none =>
+          if m = root then st                 -- {"$ref": "#"}
+          else (st.register (g m).base).emit (autoName (st.register (g m).base).auto)
+
+/-- `convertLazy` on the inner schema `m`: in `seen` ⇒ `lazyRef`; otherwise `c.convert(m)`. -/
 def lazyKid (g : Graph) (root : Nat) (conv : St → Nat → Option St) (st : St) (m : Nat) : Option St :=
-  if st.seen.contains m then
-    match (g m).id with
-    | some i => some (st.emit i)
-    | none => match st.refs (g m).base with
-        | some name => some (st.emit name)
-        | none =>
-            if m = root then some st            -- {"$ref": "#"}
-            else some ((st.register (g m).base).emit (autoName (st.register (g m).base).auto))
-  else conv st m
+  if st.seen.contains m then some (lazyAnswer g root st m) else conv st m
 
 /-- Reused:"ref": a composite, non-optional, non-nilable schema is registered (`refs` + `defs`) as soon as it is converted. -/
 def stepRegister (o : Opts) (nd : Node) (st : St) : St :=
@@ -96,7 +98,8 @@ def stepAuto (o : Opts) (nd : Node) (st : St) : St :=
     | none => (st.register nd.base).emit (autoName (st.register nd.base).auto)
   else st
 
-/-- `(*converter).convert`.  `stack` = the instances whose conversion is in progress (ghost: the Go call stack);
+/-- `(*converter).convert`.  `stack` = the instances whose conversion is in progress (`c.converting`, /repo a8f8ff2: a hit
+    on one of them is a cycle and is answered with `lazyRef`, not with the still empty placeholder);
     `none` = conversion error (`ErrCircularReference`) or fuel exhausted. -/
 def convert (g : Graph) (o : Opts) (root : Nat) : Nat → List Nat → St → Nat → Option St
   | 0, _, _, _ => none
@@ -107,8 +110,8 @@ def convert (g : Graph) (o : Opts) (root : Nat) : Nat → List Nat → St → Na
       else if o.reusedRef then
         match st.refs (g n).base with
         | some name => some (st.emit name)
-        | none => some st                     -- the placeholder / finished schema itself
-      else some st
+        | none => some (if stack.contains n then lazyAnswer g root st n else st)   -- in progress: a reference; else the finished schema
+      else some (if stack.contains n then lazyAnswer g root st n else st)
     else
       let st := { st with seen := n :: st.seen }
       let sub := if (g n).isLazy then foldKids (lazyKid g root (convert g o root fuel (n :: stack))) st (g n).kids
